@@ -17,7 +17,7 @@ import (
 func init() {
 	eng.Register(&eng.Check{
 		ID:          "C02",
-		Rule:        "E1 bounded product for typed equality: literal alphabet L (every integer in [-130,260] and the 8/16/32/64-bit boundaries, each in 8 spellings: bare, quoted decimal, +signed, 0x, 0X, 0o, legacy octal, 0b, underscore; floats rendered FROM every float value of the data set in shortest/exact/hex/exponent forms; the ParseBool spellings; every string of length<=3 over {a / \" ` \\ space e-acute 0} in every legal quoting; ill-typed and out-of-range junk) x data D (ALL 256 int8 and uint8 values [thorough: all 65536 int16/uint16], boundary sets of the wider widths, float32/float64 specials (+-0, subnormals, min/max, 2^24+1, 2^53+1, 0.1, 1/3), bools, all strings<=3, non-scalars; each plain, named, behind a pointer, in a typed struct field, as json.Number); `a == lit` evaluated on the real code and on the reference (math/big arithmetic, own float-literal reader; strconv not used); plus the five exported Coerce* functions called directly on every literal; plus the unknown-value route: `zz == lit` on an empty datum with WithUnknownValue(v) for every value v of the data set (the exhaustive 8/16-bit blocks thinned 1:23, rotating with the literal), against the reference. Distinct by construction; non-trivial = literal is valid for the value's kind (the comparison itself was decided, not a coercion error).",
+		Rule:        "E1 bounded product for typed equality: literal alphabet L (every integer in [-130,260] and the 8/16/32/64-bit boundaries, each in 8 spellings: bare, quoted decimal, +signed, 0x, 0X, 0o, legacy octal, 0b, underscore; floats rendered FROM every float value of the data set in shortest/exact/hex/exponent forms; the ParseBool spellings; every string of length<=3 over {a / \" ` \\ space e-acute 0} in every legal quoting; ill-typed and out-of-range junk) x data D (ALL 256 int8 and uint8 values [thorough: all 65536 int16/uint16], boundary sets of the wider widths, float32/float64 specials (+-0, subnormals, min/max, 2^24+1, 2^53+1, 0.1, 1/3), bools, all strings<=3, non-scalars; each plain, named, behind a pointer, in a typed struct field, as json.Number); `a == lit` evaluated on the real code and on the reference (math/big arithmetic, own float-literal reader; strconv not used); plus the five exported Coerce* functions called directly on every literal; plus the unknown-value route: `m.zz == lit` on the datum {m: {}} with WithUnknownValue(v) for every value v of the data set and for nil / a nil pointer (the exhaustive 8/16-bit blocks thinned 1:23, rotating with the literal), against the reference. Distinct by construction; non-trivial = literal is valid for the value's kind (the comparison itself was decided, not a coercion error).",
 		Assumptions: []string{"reference reads literals with math/big (exact integers, correctly rounded floats of the field's width)", "exhaustive for 8-bit (thorough: 16-bit) integers, boundary alphabets for wider kinds and floats"},
 		Run:         runC02,
 	})
@@ -257,10 +257,13 @@ func runC02(c *eng.Ctx) {
 		data[i] = Build(d).Interface()
 	}
 	vals := c02Values(c.Thorough())
-	emptyDoc := NMap(TStr, TAny)
+	emptyDoc := NMap(TStr, TAny, str("m"), NMap(TStr, TAny)) // the absent key sits below a map: without an unknown value the comparison is simply false
 	emptyDatum := Build(emptyDoc).Interface()
 	c.MaxOf("literals", int64(len(ls)))
 	c.MaxOf("documents", int64(len(ds)))
+	if c.Mine(0) && c.Want("l", -1) {
+		c02RawBytes(c)
+	}
 	for li, l := range ls {
 		if !c.Mine(li) || !c.Want("l", li) {
 			continue
@@ -299,9 +302,9 @@ func runC02(c *eng.Ctx) {
 		}
 		// the same comparison when the value does not come from the datum but from WithUnknownValue (absent selector): it must
 		// be compared in its own type exactly like a resolved value (a json.Number is a number there too)
-		ue := &Match{Sel: []string{"zz"}, Op: OpEq, Lit: l.text, Style: l.style}
+		ue := &Match{Sel: []string{"m", "zz"}, Op: OpEq, Lit: l.text, Style: l.style}
 		usrc := Render(ue)
-		for vi, v := range vals {
+		for vi, v := range append(append([]*Node{}, vals...), NNilAny(), NNilPtr(TInt)) {
 			big := !v.T.Named && (v.T.K == KInt8 || v.T.K == KUint8 || v.T.K == KInt16 || v.T.K == KUint16)
 			if big && vi%23 != li%23 {
 				continue
@@ -331,6 +334,26 @@ func runC02(c *eng.Ctx) {
 			c.Count("unknown-route:" + SetStr(got.class))
 		}
 		c.Sample(map[string]any{"expression": src, "documents": len(ds)})
+	}
+}
+
+// c02RawBytes: the expression text is UTF-8; a literal containing raw bytes that are not (spelled without an escape) is not a
+// literal at all - creation fails, in both quote styles, whatever the evaluator is configured with
+func c02RawBytes(c *eng.Ctx) {
+	for _, raw := range []string{"\xff", "a\xffb", "\xc3", "caf\xe9", "\xed\xa0\x80", "\xf8\x88\x80\x80\x80"} {
+		for _, tm := range []string{"a == \"%s\"", "a != `%s`", "\"%s\" in a", "a matches \"%s\"", "a[\"%s\"] == 1"} {
+			src := fmt.Sprintf(tm, raw)
+			ev, err := bexpr.CreateEvaluator(src)
+			c.R.Evaluations++
+			c.R.States++
+			c.R.Traces++
+			c.R.Nontrivial++
+			if err == nil || ev != nil {
+				c.Violate(eng.Violation{Kind: "raw-invalid-utf8-in-literal-accepted", Key: fmt.Sprintf("create: %q", src), Expected: "an error (the expression is not UTF-8 text)", Observed: "an evaluator"})
+			} else {
+				c.Count("raw-invalid-utf8:rejected")
+			}
+		}
 	}
 }
 
